@@ -94,7 +94,8 @@ Inductive lin :=
 | LinNone
 | LinAppend (t : nat) (m : string) (r : record)
 | LinReset (t : nat) (m : string)
-| LinSnapshot (t : nat) (m : string) (s : slice).
+| LinSnapshot (t : nat) (m : string) (s : slice)
+| LinStart (t : nat) (o : op).        (* ghost: thread t's user code begins operation o *)
 
 Section Step.
 Variable grow : nat -> nat.
@@ -110,7 +111,7 @@ Inductive step (s : cstate) (t : nat) : cstate -> lin -> Prop :=
 (* user code starts an operation on the mock *)
 | StStart o ops res below fr :
     cs_thr s t = FUser (o :: ops) res :: below -> enter mk o = Some fr ->
-    step s t (set_thr s t (fr :: FUser ops res :: below)) LinNone
+    step s t (set_thr s t (fr :: FUser ops res :: below)) (LinStart t o)
 (* the function field returns (or panics) into the body that called it *)
 | StUserRet rs b below :
     cs_thr s t = FUser [] (FRet rs) :: b :: below ->
